@@ -312,6 +312,7 @@ func lookupByPath(tree *iTree, target *node, path string, c *cTx, lazy bool) (n 
 
 	current := target
 	*c.skipNds = (*c.skipNds)[:0]
+	verifPoint("lookup.path")
 
 Walk:
 	for charsMatched < len(path) {
@@ -618,6 +619,7 @@ Walk:
 	// Finally incomplete match to middle of edge
 Backtrack:
 	if hasSkpNds {
+		verifPoint("lookup.backtrack")
 		skipped := c.skipNds.pop()
 
 		parent = skipped.n
